@@ -7,6 +7,7 @@ package main
 
 import (
 	"fmt"
+	"sync"
 	"go/constant"
 	"go/token"
 	"go/types"
@@ -32,7 +33,13 @@ type renamer struct {
 
 func newRenamer() *renamer { return &renamer{ids: map[ssa.Value]int{}, n: map[string]int{}} }
 
+var keyMu sync.Mutex
+
 func (r *renamer) id(kind string, v ssa.Value) int {
+	if r.key {
+		keyMu.Lock()
+		defer keyMu.Unlock()
+	}
 	if id, ok := r.ids[v]; ok {
 		return id
 	}
